@@ -664,6 +664,8 @@ def correspondence(ctx):
             ctx.mismatch(q.split()[0], {"tz": d[0], "a": d[1], "b": d[2], "wire": q}, e, g)
     ctx.count("zone_eq_pairs", len(reqs) // 2)
     ctx.traces += len(reqs)
+    # ---- copies and pickles: the reduce / rebuild model ----
+    reduce_correspondence(ctx)
 
 
 # ======================================================================================
@@ -801,6 +803,74 @@ def local_names_tz_switch(ctx, tz, only=None):
                 for pr in probs[:1]:
                     ctx.violation(pr, case, probs)
         tz.gettz.cache_clear()
+
+
+def reduce_correspondence(ctx):
+    """copy / pickle MODEL (Model/Reduce.lean, op reduce.rt) against the implementation: for every zone of the pool and every
+    protocol 0..5 the shape of `z.__reduce_ex__(p)` (copyreg._reconstructor(cls, datetime.tzinfo, tzinfo()) / copyreg.__newobj__(cls) with the whole `__dict__` as
+    state; tzfile: (cls, (None, _filename), __dict__)), and the attribute dictionary of what pickle / copy.copy / copy.deepcopy
+    rebuild, attribute by attribute (values abstracted to classes up to ==)."""
+    import copyreg
+    from dateutil import tz
+    import dateutil.zoneinfo as dzi
+    names = {tz.tzutc: "tzutc", tz.tzoffset: "tzoffset", tz.tzlocal: "tzlocal", tz.tzrange: "tzrange", tz.tzstr: "tzstr", tz.tzfile: "tzfile"}
+    reqs, meta = [], []
+    with S.pinned_tz("EST5EDT"):
+        pool = zone_pool("EST5EDT")
+        for label, z in pool:
+            cls = names.get(type(z))
+            if cls is None:
+                # dateutil.zoneinfo.tzfile reduces to (zoneinfo.gettz, (name,)): the shared per-process archive entry, not a state copy
+                if isinstance(z, dzi.tzfile):
+                    ctx.count("reduce_zoneinfo_tzfile_by_name")
+                    red = z.__reduce__()
+                    if not (red[0] is dzi.gettz and red[1] == (z._filename,)):
+                        ctx.mismatch("reduce.shape", label, "(zoneinfo.gettz, (name,))", repr(red)[:200])
+                continue
+            d = dict(z.__dict__)
+            keys = sorted(d)
+            pool_vals = []
+            def cls_of(v):
+                for i, x in enumerate(pool_vals):
+                    try:
+                        if type(x) is type(v) and x == v:
+                            return i
+                    except Exception:
+                        pass
+                pool_vals.append(v)
+                return len(pool_vals) - 1
+            wire = ",".join("%s:%d" % (k, cls_of(d[k])) for k in keys) or "-"
+            for p in range(0, pickle.HIGHEST_PROTOCOL + 1):
+                red = z.__reduce_ex__(p)
+                if cls == "tzfile":
+                    shape = "call" if (red[0] is type(z) and red[1] == (None, z._filename) and red[2] is z.__dict__) else "other:" + repr(red[:2])[:80]
+                elif red[0] is copyreg._reconstructor and len(red[1]) == 3 and red[1][0] is type(z) and red[1][1] is datetime.tzinfo \
+                        and type(red[1][2]) is datetime.tzinfo:
+                    shape = "reconstructor"
+                elif red[0] is copyreg.__newobj__ and red[1] == (type(z),):
+                    shape = "newobj"
+                else:
+                    shape = "other:" + repr(red[:2])[:80]
+                state = red[2] if len(red) > 2 else None
+                if shape in ("reconstructor", "newobj") and (state or {}) != d:
+                    shape += ":state-is-not-__dict__"
+                variants = [("pickle%d" % p, pickle.loads(pickle.dumps(z, p)))]
+                if p == 4:
+                    variants += [("copy", copy.copy(z)), ("deepcopy", copy.deepcopy(z))]
+                for how, c in variants:
+                    cd = c.__dict__
+                    vals = ",".join("%s=%s" % (k, cls_of(cd[k]) if k in cd else "-") for k in keys)
+                    extra = sorted(set(cd) - set(d))
+                    line = "ok %s %s %s;eq=%d" % (shape, names.get(type(c), type(c).__name__), vals, int(bool(c == z) and not (c != z)))
+                    if extra:
+                        line += " extra=" + ",".join(extra)
+                    reqs.append("reduce.rt %d %s %s" % (p, cls, wire)); meta.append((label, how, line))
+    got = ctx.driver(reqs)
+    for (label, how, line), g in zip(meta, got):
+        ctx.traces += 1
+        ctx.count("reduce_rt:" + how.rstrip("012345"))
+        if line != g:
+            ctx.mismatch("reduce.rt", {"zone": label, "how": how}, line[:300], g[:300])
 
 
 def direct_identity(ctx, tz):
